@@ -62,11 +62,13 @@ class SimFile:
         self.trunc_at: int | None = None  # fault: visible length
         self.ledger = {"calls": 0, "req": 0, "ret": 0}
         self.mutations = 0
+        self._version = 0  # bumped by every content/length change
 
     # -- writer side -------------------------------------------------------------------------------
     def _put(self, start: int, end: int, src) -> None:
         if end <= start:
             return
+        self._version += 1
         starts, ext = self._starts, self._ext
         i = bisect_right(starts, start) - 1
         lo = i if (i >= 0 and ext[i][1] > start) else i + 1
@@ -103,6 +105,8 @@ class SimFile:
         self._put(off, off + length, None)
 
     def set_length(self, n: int) -> None:
+        if n != self.length:
+            self._version += 1
         self.length = n
 
     # -- fault overlay -----------------------------------------------------------------------------
@@ -237,7 +241,7 @@ class Monitor:
             if event == "open":
                 path, mode, flags = args
                 spath = os.fsdecode(path) if isinstance(path, (bytes, str, os.PathLike)) else repr(path)
-                if spath.endswith(".pyc") or "__pycache__" in spath:
+                if spath.endswith(".pyc") or "__pycache__" in spath or spath == os.devnull:
                     return
                 fl = flags if isinstance(flags, int) else 0
                 self.opens.append((spath, fl))
@@ -443,6 +447,7 @@ class SimOutHandle:
             f._ext = []
             f._starts = []
             f.length = 0
+            f._version += 1
 
     def write(self, data):
         if isinstance(data, str):
@@ -515,6 +520,7 @@ class SimFS:
         self.open_log: list[tuple[str, str]] = []
         self.declared_outputs: set[str] = set()
         self.handles: list[SimHandle] = []
+        self.site_log: set | None = None  # library call sites that opened something (reach measure)
 
     # -- building --------------------------------------------------------------------------------
     def mount(self, prefix: str):
@@ -573,6 +579,14 @@ class SimFS:
 
     def open(self, spath: str, mode: str = "r", **kw):
         self.open_log.append((spath, mode))
+        if self.site_log is not None:
+            fr = sys._getframe(1)
+            while fr is not None:
+                fn = fr.f_code.co_filename
+                if "/dissect/hypervisor/" in fn:
+                    self.site_log.add(fn.split("/dissect/hypervisor/", 1)[1] + ":%d" % fr.f_lineno)
+                    break
+                fr = fr.f_back
         writing = any(c in mode for c in "wax+")
         fault = self.faults.get(spath)
         if fault and self.world is not None:
